@@ -657,7 +657,7 @@ def c17_9(R):
     R.floor("call sites of the StreamArgs constructors", n, 2)
 
 
-@rule("C17.10", ["C17", "C09", "C04", "C05", "C14", "C07"], ["E4", "E7"], "the connection object is wired from the handshake state and the socket's options",
+@rule("C17.10", ["C17", "C09", "C04", "C05", "C14", "C07", "C18", "C06"], ["E4", "E7"], "the connection object is wired from the handshake state and the socket's options",
       "UtpStreamStarter::new builds VirtualSocket with state, seq_nr, last_sent_seq_nr, last_consumed_remote_seq_nr, last_sent_ack_nr, conn_id_send, last_remote_timestamp <- the same-named StreamArgs "
       "field, last_remote_window <- args.remote_window (also given to the congestion controller), user_tx_segments = Segments::new(args.seq_nr), rto_retransmissions = 0, consumed_but_unacked_bytes = 0; "
       "SegmentSizes::new gets is_ipv4 from the remote address and link_mtu from the socket's options; the RX / TX buffers get vsock_rx_bufsize / vsock_tx_bufsize_bytes_initial; "
@@ -685,6 +685,25 @@ def c17_10(R):
             R.ok("vsock-wiring", fld, "= 0")
         else:
             R.fail([sn.name, "vsock-wiring", fld, "not-zero"], "VirtualSocket.%s does not start at 0" % fld, where=s.where(), instance="vsock-wiring")
+    # socket_opts: the connection reads the options the user validated for the socket - a plain clone of socket.opts(), nothing decided per connection
+    if "socket_opts" in names:
+        n += 1
+        t = trace(sn, s.rv.ops[names.index("socket_opts")])
+        inner = t  # the provenance walk looks through Clone::clone
+        if t.kind == "call" and call_matches(t.root[1], ("Clone::clone",)) and not t.fields and t.root[1].args:
+            inner = trace(sn, t.root[1].args[0])
+        # ... and no local on the way is written through a field after it was produced (`let mut o = opts.clone(); o.nagle = false;`)
+        edited = []
+        for st in list(t.steps) + (list(inner.steps) if inner is not t and inner is not None else []):
+            dl = st.place.local if isinstance(st, Stmt) and st.place.is_local else (st.dest.local if isinstance(st, Term) and st.kind == "call" and st.dest is not None and st.dest.is_local else None)
+            if dl is not None:
+                edited += [w for w in sn.defs()[1].get(dl, ()) if not getattr(w, "is_tracing", False)]
+        if inner is not None and inner.kind == "call" and call_matches(inner.root[1], ("socket::UtpSocket::opts",)) and not inner.fields and not edited:
+            R.ok("vsock-wiring", "socket_opts", "<- socket.opts().clone()")
+        else:
+            R.fail([sn.name, "vsock-wiring", "socket_opts", "edited-copy" if (t.kind == "multi" or edited) else t.describe()[:40]], "VirtualSocket.socket_opts is not a plain clone of the socket's validated options (%s): an option "
+                   "the user set - Nagle, the retransmission limit, wait_for_last_ack ... - can be overridden per connection behind the user's back" % ("a copy that is written to before it is stored" if t.kind == "multi" else t.describe()[:60]),
+                   where=s.where(), instance="vsock-wiring")
     # last_sent_window: "what the peer has been told" before anything was sent - our own receive buffer for a connection that is already established
     # (so that no window update goes out unprovoked), 0 otherwise; never the PEER's window, which is a number about the other direction
     if "last_sent_window" in names:
